@@ -194,8 +194,10 @@ theorem C09_copy_file_concrete {env : Env} {a b : Str} {c : CopyOpts} {s : State
   rw [h3]
 
 /-- the same against the reference: the reference copy succeeds too and the abstraction of the
-    post-state is the reference's post-state.  Domain: the source's mode carries its file-type bit
-    (true of every reachable entry) and a requested `mode` is a permission value -/
+    post-state is the reference's post-state.  Domain: the source's mode is canonical — permission
+    bits plus its file-type bit, which is what `MemfsEntryOpts::mode` produces for every entry since
+    the `mode_type_bits` repair — and a requested `mode` is a permission value (`< 0o10000`: Memfs
+    keeps its permission bits only, like chmod(2); the reference stores it uninterpreted) -/
 theorem C09_copy_file_partial {env : Env} {a b : Str} {c : CopyOpts} {s : State} {sk dk : FsPath}
     {srcE pe : Entry} (hinv : Spec.Inv s) (hk : KeysWf s)
     (ha : absM env a s = (.ok sk, s)) (hb : absM env b s = (.ok dk, s)) (hne : sk ≠ dk)
@@ -206,8 +208,8 @@ theorem C09_copy_file_partial {env : Env} {a b : Str} {c : CopyOpts} {s : State}
     (hfree : alLookup (copyDst s sk dk) s.entries = none)
     (hpar : alLookup (copyDst s sk dk).dropLast s.entries = some pe) (hped : pe.dir = true)
     (hpel : pe.link = false)
-    (hmode : srcE.mode ||| 0o100000 = srcE.mode)
-    (hperm : ∀ x, c.mode = some x → x < 0o100000) :
+    (hmode : (srcE.mode &&& 0o7777) ||| 0o100000 = srcE.mode)
+    (hperm : ∀ x, c.mode = some x → x < 0o10000) :
     ∃ s', step env s (.copyB a b c) = (.ok .unit, s') ∧
       (copySpec (absS s) sk dk c.mode c.cdirs c.cfiles).1 = .ok () ∧
       TEquiv (absS s') (copySpec (absS s) sk dk c.mode c.cdirs c.cfiles).2 := by
@@ -223,9 +225,9 @@ theorem C09_copy_file_partial {env : Env} {a b : Str} {c : CopyOpts} {s : State}
 /-- `TreeCtx s sk dk c` (all fields decidable except the universally quantified ones, which range
     over the finitely many keys of `s`): invariant, well-formed names, no-follow, source not the
     root, destination root `D = copyDst s sk dk` free with an existing real-directory parent and not
-    below the source, every entry of the source subtree `SubOk` (no link; directories carry their
-    type bit and the default owner 1000:1000, files carry their type bit), a requested `mode` is a
-    non-zero permission value.
+    below the source, every entry of the source subtree `SubOk` (no link; the mode is canonical:
+    permission bits plus the type bit; directories have the default owner 1000:1000), a requested
+    `mode` is a non-zero permission value (`< 0o10000`).
     `PreOrder s sk L`: `L` lists exactly the entries of the subtree of `sk`, each once, ancestors
     first.  `htrav`: the traversal of the snapshot yields `L` — this is the traversal theorem (C08)
     taken as an explicit hypothesis; it is proved for a concrete snapshot in `Lemmas.htrav_small`.
@@ -282,7 +284,7 @@ example : (step (fun _ => none) smallState (.moveP ['/', 'a'] ['/', 'a', '/', 'x
 /-- hypotheses of the single-file theorems are satisfiable: `/a/f` → `/d` (an existing directory) -/
 example : copyDst smallState [['a'], ['f']] [['d']] = [['d'], ['f']] ∧
     alLookup [['d'], ['f']] smallState.entries = none ∧
-    (alLookup [['a'], ['f']] smallState.entries).map (fun e => (e.file, e.link, e.dir, e.mode ||| 0o100000 == e.mode))
+    (alLookup [['a'], ['f']] smallState.entries).map (fun e => (e.file, e.link, e.dir, (e.mode &&& 0o7777) ||| 0o100000 == e.mode))
       = some (true, false, false, true) := by decide
 
 /-- non-vacuity of the tree theorem: on `smallState`, `copy("/a", "/d")` satisfies every hypothesis
